@@ -227,3 +227,17 @@ Fixpoint deliver_p (c : cfg) (ps : pstate) (bs : list blk) : res pstate :=
   | [] => Ok ps
   | b :: t => do r <- add_block_p c ps b; deliver_p c (fst r) t
   end.
+
+(* ---------------- comparison entry point of the harness ---------------- *)
+(* expected rows carry genesis_block_id as fifth number of row 1; histories inside the
+   old regime (all ids <= 2 * gp) are additionally compared with Chain.run_trace, whose
+   observation has no such column *)
+Definition strip_gid (rows : list (list (list N))) : list (list (list N)) :=
+  map (fun r => match r with a :: b :: t => a :: firstn 4 b :: t | _ => r end) rows.
+
+Definition in_old_regime (c : cfg) (bs : list blk) (order : list N) : bool :=
+  forallb (fun h => match find_blk bs h with Some b => b_id b <=? 2 * gp_of c | None => true end) order.
+
+Definition check_trace (c : cfg) (bs : list blk) (order : list N) (expected : list (list (list N))) : bool :=
+  eqb_lllN (run_trace_p c bs order) expected
+  && (if in_old_regime c bs order then eqb_lllN (run_trace c bs order) (strip_gid expected) else true).
